@@ -77,6 +77,10 @@ type Scenario struct {
 	Fresh, Late map[int64]bool
 	Log         []Entry
 	Actions     []Action
+	// NoState: the storage holds no common state when the client starts for the first time; Pre log
+	// entries have happened by then, the server's state at that moment is what the client starts from.
+	NoState bool
+	Pre     int
 	// Final recovery (updatesTooLong + updateChannelTooLong for every channel, twice) is always appended.
 }
 
@@ -132,6 +136,9 @@ func (s Scenario) Line(op string, w *World) string {
 	as := make([]string, len(s.Actions))
 	for i, a := range s.Actions {
 		as[i] = a.String()
+	}
+	if s.NoState && op == "mgr" {
+		op = fmt.Sprintf("first:%d", s.Pre)
 	}
 	return strings.TrimSpace(fmt.Sprintf("%s %d %d %s %s %s %s %s", op, s.P0, s.Q0, chanWords(s), storedWord(stored, late), cr,
 		logWords(s), strings.Join(as, " ")))
@@ -366,6 +373,10 @@ func (s Scenario) Run(from *Snapshot, emitAll bool, actions []Action, known map[
 	}
 	for c := range known {
 		w.Known[c] = true
+	}
+	w.NoState, w.Pre = s.NoState, min(s.Pre, len(s.Log))
+	if s.NoState {
+		w.Emitted = w.Pre
 	}
 	if emitAll {
 		w.Emitted = len(w.Log)
